@@ -11,6 +11,7 @@ import (
 	"net"
 	"net/netip"
 	"sync"
+	"sync/atomic"
 	"time"
 
 	"github.com/mycoria/mycoria/config"
@@ -22,6 +23,7 @@ import (
 	"github.com/mycoria/mycoria/switchr"
 	"github.com/mycoria/mycoria/tun"
 
+	"verifharness/core"
 	"verifharness/env"
 )
 
@@ -147,6 +149,9 @@ func (l *VLink) send(f frame.Frame, prio bool) error {
 	}
 	cp := append([]byte(nil), data...)
 	f.ReturnToPool()
+	if !l.mesh.async.Load() && !l.mesh.live.Load() && core.FromForeignGoroutine() {
+		l.mesh.setAsync("a link's Send called from a goroutine started by the code under test") // the code under test sends from a goroutine of its own
+	}
 	if l.Drop != nil && l.Drop(cp) {
 		return nil
 	}
@@ -195,14 +200,60 @@ type Mesh struct {
 	// SentOnClosedLink counts frames handed to a link object after it was closed.
 	SentOnClosedLink int
 	// settling state (see Settle)
-	busyWindows     int
-	residentWorkers bool
-	KeepLog        bool
+	async       atomic.Bool   // goroutines of the code under test work for this mesh (seen in a snapshot or sending)
+	live        atomic.Bool   // the harness itself started worker pools of this mesh (StartSwitches)
+	driver      int64         // goroutine that created the mesh
+	lastCreated atomic.Uint64 // process-wide goroutine creation counter at the last Settle
+	KeepLog     bool
 }
 
 // New creates an empty mesh.
 func New() *Mesh {
-	return &Mesh{seenHops: map[string]int{}}
+	ms := &Mesh{seenHops: map[string]int{}}
+	if core.AsyncTree.Load() {
+		// The tree under test keeps workers of its own per router: end those of the mesh this driver used before
+		// (their managers are cancelled), or they pile up over thousands of meshes.
+		ms.driver = core.GoID()
+		ms.async.Store(true)
+		lastMeshMu.Lock()
+		prev := lastMesh[ms.driver]
+		lastMesh[ms.driver] = ms
+		lastMeshMu.Unlock()
+		if prev != nil {
+			prev.retire()
+		}
+	}
+	return ms
+}
+
+var (
+	lastMeshMu sync.Mutex
+	lastMesh   = map[int64]*Mesh{}
+)
+
+func (ms *Mesh) retire() {
+	for _, n := range ms.Nodes {
+		if n.Inst == nil {
+			continue
+		}
+		if n.Inst.RouterV != nil {
+			n.Inst.RouterV.Manager().Cancel()
+		}
+		if n.Inst.SwitchV != nil {
+			n.Inst.SwitchV.Manager().Cancel()
+		}
+		if n.Inst.PeeringV != nil {
+			n.Inst.PeeringV.Manager().Cancel()
+		}
+		if n.Inst.StateV != nil {
+			n.Inst.StateV.Manager().Cancel()
+		}
+	}
+}
+
+func (ms *Mesh) setAsync(why string) {
+	ms.async.Store(true)
+	core.NoteAsync(why)
 }
 
 // NodeOpts configures a node.
@@ -319,6 +370,19 @@ func (ms *Mesh) Take(i int) *Packet {
 	return p
 }
 
+// TakeByKey removes and returns the first in-flight packet with the given content key (nil if there is none).
+func (ms *Mesh) TakeByKey(key string) *Packet {
+	ms.mu.Lock()
+	defer ms.mu.Unlock()
+	for i, q := range ms.InFlight {
+		if Key(q.Data) == key {
+			ms.InFlight = append(ms.InFlight[:i], ms.InFlight[i+1:]...)
+			return q
+		}
+	}
+	return nil
+}
+
 // Pending returns the number of frames in flight.
 func (ms *Mesh) Pending() int {
 	ms.mu.Lock()
@@ -385,6 +449,15 @@ func (ms *Mesh) DeliverOn(p *Packet, to, via int) Result {
 		ms.notePanic(to, p, perr)
 	}
 	ms.drainUpstream(n, p, &res)
+	// What the handler handed to goroutines of its own belongs to this delivery: wait for it (cheap when no
+	// goroutine was created), then look at the router's input once more.
+	for again := 0; again < 4; again++ {
+		ms.Settle()
+		if len(n.Upstream) == 0 {
+			break
+		}
+		ms.drainUpstream(n, p, &res)
+	}
 	if ms.OnHandled != nil {
 		var rerr error
 		if len(res.RouterErr) > 0 {
@@ -566,6 +639,7 @@ func (ms *Mesh) StartSwitches() error {
 			return err
 		}
 	}
+	ms.live.Store(true)
 	return nil
 }
 
@@ -576,6 +650,7 @@ func (ms *Mesh) StopSwitches() {
 			n.Inst.SwitchV.Manager().Cancel()
 		}
 	}
+	ms.live.Store(false)
 }
 
 // LiveOutcome is what became of one frame handed to a live switch.
@@ -656,11 +731,14 @@ func (ms *Mesh) DeliverLive(p *Packet) LiveOutcome {
 // so outside a handler call there normally is none). Workers that never end (started lazily by such a tree) are
 // recognised after two full windows; from then on Settle only grants them a short fixed grace.
 func (ms *Mesh) Settle() {
-	if ms.residentWorkers {
-		time.Sleep(1500 * time.Microsecond)
+	if ms.live.Load() {
+		return // worker pools started by the harness itself: the caller waits for their output
+	}
+	if ms.async.Load() {
+		core.WaitQuiet()
 		return
 	}
-	for round := 0; round < 150; round++ {
+	for round := 0; round < 25; round++ {
 		busy := false
 		for _, n := range ms.Nodes {
 			if n.Inst == nil {
@@ -680,13 +758,18 @@ func (ms *Mesh) Settle() {
 			}
 		}
 		if !busy {
-			ms.busyWindows = 0
-			return
+			break
 		}
 		time.Sleep(200 * time.Microsecond)
 	}
-	ms.busyWindows++
-	if ms.busyWindows >= 2 {
-		ms.residentWorkers = true
+	if core.GoroutinesCreated() == ms.lastCreated.Load() {
+		return // no goroutine was created anywhere in the process since the last look
 	}
+	// Goroutines were created: a snapshot of the runtime tells whether any of them belongs to the code under
+	// test and works for this driver. If so the tree under test is asynchronous (sticky: a queue's consumer can
+	// be woken later without any goroutine being created).
+	if core.WaitForeignIdle() {
+		ms.setAsync("a snapshot shows goroutines started by the code under test for this driver")
+	}
+	ms.lastCreated.Store(core.GoroutinesCreated())
 }
